@@ -15,6 +15,13 @@ def stream(family, tier):
         for cl, heads in G.f1_programs(1, dup_facts=True):
             for p in list(G.decorate(cl, heads, k=k))[:2]:
                 yield p
+            # the rule itself written twice, and with a repeated body literal
+            cl2 = cl + [cl[-1]]
+            yield {"clauses": cl2, "queries": [G.A(h) for h in heads], "evidence": []}
+            r = cl[-1]
+            if len(r["body"]) == 1:
+                cl3 = cl[:-1] + [dict(r, body=r["body"] * 2)]
+                yield {"clauses": cl3, "queries": [G.A(h) for h in heads], "evidence": []}
             k += 1
     elif family == "F1.2":
         for cl, heads in G.f1_programs(2):
@@ -59,6 +66,18 @@ def stream(family, tier):
     elif family == "FLEX":
         for p in G.flex_programs():
             yield p
+    elif family == "FR":
+        for cl in G.fr_programs():
+            yield {"clauses": cl, "queries": [G.A("q", "X"), G.A("p", "X")], "evidence": []}
+            if tier != "quick" or k % 2 == 0:
+                yield {"clauses": cl, "queries": [G.A("p", "X"), G.A("q", "c")], "evidence": []}
+            k += 1
+    elif family == "F1.3e":
+        # F1.3s with TWO evidence statements: the last derived head is observed true, fact b false
+        for cl, heads in G.f1_programs(3, bodies="single"):
+            yield {"clauses": cl, "queries": [G.A(heads[0])] + ([G.A("a")] if k % 2 else []),
+                   "evidence": [[G.A(heads[-1]), True, "plain"], [G.A("b"), False, "pair"]]}
+            k += 1
     elif family == "FT":
         for cl in G.ft_programs():
             qs = [G.A("s"), G.A("t")]
